@@ -21,9 +21,12 @@ ascent! {
 }
 #[test]
 fn t() {
+   // the transitive closure of {(1,2),(2,1)}, as the rule tr(x,z) <-- tr(x,y), tr(y,z) computes it
+   let want: BTreeSet<(u32, u32)> = [(1, 1), (1, 2), (2, 1), (2, 2)].into_iter().collect();
    let mut t = T::default(); t.run();
    println!("two facts:  {:?}", t.m.iter().cloned().collect::<BTreeSet<_>>());
+   assert_eq!(t.m.iter().cloned().collect::<BTreeSet<_>>(), want);
    let mut t = T1::default(); t.run();
    println!("one rule:   {:?}", t.m.iter().cloned().collect::<BTreeSet<_>>());
-   panic!();
+   assert_eq!(t.m.iter().cloned().collect::<BTreeSet<_>>(), want);
 }
